@@ -28,7 +28,7 @@ def calls(rng, n, uni):
     out.append("foldrev %s %d" % (lst(v[:5]), rng.randrange(5)))
     out += ["map " + L, "maperr %s %d" % (L, rng.randrange(-1, n + 1)), "filter %s %d %d" % (L, m, r), "any %s %d %d" % (L, m, r), "all %s %d %d" % (L, m, r),
             "indexfunc %s %d %d" % (L, m, r), "index %s %d" % (L, rng.randrange(uni + 1)), "contains %s %d" % (L, rng.randrange(uni + 1)),
-            "containsfunc %s %d %d" % (L, rng.randrange(uni + 1), m), "distinct " + L, "distinctfunc %s %d" % (L, m),
+            "containsfunc %s %d %d" % (L, rng.randrange(uni + 1), rng.choice([m, m, 0])), "distinct " + L, "distinctfunc %s %d" % (L, rng.choice([m, m, 0])),
             "except %s %s" % (L, lst(w)), "exceptset %s %s" % (L, lst(w)), "groupby %s %d" % (L, m), "countby %s %d" % (L, m),
             "%s %s %s" % (rng.choice(["trim", "trimleft", "trimright"]), L, lst(w)),
             "%s %s %d %d" % (rng.choice(["trimfunc", "trimleftfunc", "trimrightfunc"]), L, m, r),
